@@ -5,6 +5,7 @@
 //   menu <h0> <h1> | <history> | 0 1 2 3 4 5   real Game::choices(n), u8::from(edge), Game::actionize(&edge),
 //                                              u64::from(Path::from(menu)), to_raise, to_shove, pot, turn
 //   pack <u8 codes>                            Path::from(Vec<Edge>) / Vec<Edge>::from(Path) (17 edges: panic)
+//   path64 <u8 codes>                          u64::from(Path), i64::from(Path), Path::from(i64) (the signed database form)
 //   edge <u8 code>                             u64::from(Edge), Edge::from(u64)
 //   f32 <num> <den> 0 <2*STACK>                (pot as f32 * f32::from(odds)) as i16, exactly as game.rs computes it
 //
@@ -201,6 +202,37 @@ fn pack(es: &[Edge]) -> Option<u64> {
 fn unpack(w: u64) -> Option<Vec<Edge>> {
     catch(move || Vec::<Edge>::from(Path::from(w)))
 }
+/// the two 64-bit forms of a packed path, each taken there and back: (u64 form, Path from it as
+/// u64, i64 form (the database column), Path from it as u64, the edges read back from that Path)
+fn forms(w: u64) -> Option<(u64, u64, i64, u64, Vec<Edge>)> {
+    catch(move || {
+        let p = Path::from(w);
+        let u = u64::from(p);
+        let pu = u64::from(Path::from(u));
+        let i = i64::from(p);
+        let back = Path::from(i);
+        (u, pu, i, u64::from(back), Vec::<Edge>::from(back))
+    })
+}
+/// every packed menu / history must survive Path -> u64 -> Path and Path -> i64 -> Path unchanged
+fn check_forms(run: &mut Run, name: &str, es: &[Edge], w: u64) -> Option<(i64, u64)> {
+    run.spec_checked += 1;
+    match forms(w) {
+        None => {
+            run.fail("pack-panics", &format!("{name} [Path({w}) -> u64 / i64 -> Path]"), "the same path", "panic");
+            None
+        }
+        Some((u, pu, i, pi, back)) => {
+            if u != w || pu != w {
+                run.fail("pack-u64-form-roundtrip", name, &w.to_string(), &format!("u64 form {u}, back {pu}"));
+            }
+            if pi != w || back != es {
+                run.fail("pack-i64-form-roundtrip", name, &format!("Path({w}) = {es:?}"), &format!("i64 form {i}, back Path({pi}) = {back:?}"));
+            }
+            Some((i, pi))
+        }
+    }
+}
 fn div_floor(a: i64, b: i64) -> i64 {
     a.div_euclid(b)
 }
@@ -325,6 +357,7 @@ fn check_state(cx: &mut Ctx, name: &str, g: &Game, rules: &Rules) {
                 if unpack(w).as_ref() != Some(&menu) {
                     cx.run.fail("menu-pack-roundtrip", &at, &format!("{menu:?}"), &format!("{:?}", unpack(w)));
                 }
+                check_forms(&mut cx.run, &at, &menu, w);
             }
         }
         let mut raises: Vec<(Odds, i32)> = vec![];
@@ -771,7 +804,7 @@ fn main() {
     let deals = make_deals(&mut rng, 12);
     let n_hist: usize = if a.thorough() { 100_000 } else { 20_000 };
     cx.run.rule = format!(
-        "every state reachable under the abstraction (breadth-first, counted in the notes) + {n_hist} random histories of the real Game (5 styles x legal() ∪ every raise size, {} forced deals){}; each distinct betting state once, x raise counts 0..=5 x every menu entry, against the history-based NLHE rules (see file header); then batches (groups of decisions with equal pot: all menus first, all translations afterwards, forward / reverse / interleaved / two hands / whole pool / 4 threads), each (state, edge) judged on its own; all {} pots x {} grid odds for the f32 product; all 15 single edges; random edge sequences of length 0..=16 (round trip, injectivity) and 17..=20 (rejected). a case = one (betting state, raise count); non-trivial always",
+        "every state reachable under the abstraction (breadth-first, counted in the notes) + {n_hist} random histories of the real Game (5 styles x legal() ∪ every raise size, {} forced deals){}; each distinct betting state once, x raise counts 0..=5 x every menu entry, against the history-based NLHE rules (see file header); then batches (groups of decisions with equal pot: all menus first, all translations afterwards, forward / reverse / interleaved / two hands / whole pool / 4 threads), each (state, edge) judged on its own; all {} pots x {} grid odds for the f32 product; all 15 single edges; random edge sequences of length 0..=16 and structured 14/15/16-edge histories ending in each of the 15 codes (round trip through Vec<Edge>, the u64 form and the signed i64 form; injectivity) and 17..=20 (rejected). a case = one (betting state, raise count); non-trivial always",
         deals.len(), if a.thorough() { " + breadth-first search over all reachable betting states" } else { "" }, 2 * STACK + 1, Odds::GRID.len()
     );
 
@@ -868,6 +901,7 @@ fn main() {
         cx.run.distinct(&("edge", c));
     }
     let mut words: HashMap<u64, Vec<u8>> = HashMap::new();
+    let mut signed: HashMap<i64, Vec<u8>> = HashMap::new();
     let n_seq = if a.thorough() { 200_000 } else { 20_000 };
     for i in 0..n_seq {
         let len = match i % 10 {
@@ -896,6 +930,13 @@ fn main() {
                 if back.as_ref() != Some(&es) {
                     cx.run.fail("pack-roundtrip", &name, &format!("{es:?}"), &format!("{back:?}"));
                 }
+                if let Some((i, _)) = check_forms(&mut cx.run, &name, &es, w) {
+                    if let Some(prev) = signed.insert(i, cs.clone()) {
+                        if prev != cs {
+                            cx.run.fail("pack-i64-collision", &name, "distinct i64 forms for distinct sequences", &format!("{i} also encodes {prev:?}"));
+                        }
+                    }
+                }
                 if let Some(prev) = words.get(&w) {
                     if *prev != cs {
                         cx.run.fail("pack-collision", &name, "distinct words for distinct sequences", &format!("{w} also encodes {prev:?}"));
@@ -910,6 +951,51 @@ fn main() {
         }
         cx.run.count(&format!("sequence-length:{len:02}"));
         cx.run.distinct(&("seq", cs));
+    }
+    // structured histories: 14, 15 and 16 edges ending in each of the 15 edge codes (a 16th code >= 8
+    // sets bit 63: the signed form is negative), over several fillings; both 64-bit forms there and back
+    for len in [14usize, 15, 16] {
+        for last in &edges {
+            for fill in 0..6u64 {
+                let mut es: Vec<Edge> = (0..len - 1).map(|k| match fill {
+                    0 => Edge::Fold,
+                    1 => edges[14],
+                    2 => edges[k % 15],
+                    3 => edges[14 - k % 15],
+                    _ => edges[rng.below(15) as usize],
+                }).collect();
+                es.push(*last);
+                cx.run.evaluations += 1;
+                cx.run.spec_checked += 1;
+                let cs: Vec<u8> = es.iter().map(|e| u8::from(*e)).collect();
+                let name = format!("path64 {}", cs.iter().map(|c| c.to_string()).collect::<Vec<_>>().join(" "));
+                match pack(&es) {
+                    None => {
+                        cx.run.fail("pack-panics", &name, "a path", "panic");
+                        cx.run.line(&name, "panic");
+                    }
+                    Some(w) => {
+                        if unpack(w).as_ref() != Some(&es) {
+                            cx.run.fail("pack-roundtrip", &name, &format!("{es:?}"), &format!("{:?}", unpack(w)));
+                        }
+                        let ans = match check_forms(&mut cx.run, &name, &es, w) {
+                            Some((i, pi)) => {
+                                if let Some(prev) = signed.insert(i, cs.clone()) {
+                                    if prev != cs {
+                                        cx.run.fail("pack-i64-collision", &name, "distinct i64 forms for distinct sequences", &format!("{i} also encodes {prev:?}"));
+                                    }
+                                }
+                                format!("{w} {i} {pi}")
+                            }
+                            None => format!("{w} panic"),
+                        };
+                        cx.run.line(&name, &ans);
+                    }
+                }
+                cx.run.count(&format!("structured-history:len{len}:last-code-{}", if u8::from(*last) >= 8 { "ge8" } else { "lt8" }));
+                cx.run.distinct(&("seq", cs));
+            }
+        }
     }
     for len in 17..=20usize {
         for _ in 0..8 {
